@@ -82,14 +82,8 @@ theorem rt_raw (st : Bool) (k : RawK) : RT st (.raw k) := by
   | .blob bs, hv =>
     simp only [HasTy, beq_iff_eq] at hv
     simp only [ser, Tr.emit_bytes, canon]
-    cases k <;> simp only [de]
-    · rw [readMapped_append' bs rest hv]; rfl
-    · rw [readMapped_append' bs rest hv]; rfl
-    · have : Rd.slice.readExact 12 (bs ++ rest) = .ok (bs, rest) := by
-        have := readMapped_append' bs rest hv
-        simp only [readMapped] at this
-        exact Out.mapErr_eq_ok_iff.mp this
-      rw [this]; rfl
+    simp only [de]
+    rw [readMapped_append' bs rest hv]; rfl
 
 theorem rt_custom (st : Bool) (t : Ty) (hw : WfTy (.custom t) = true) : RT st (.custom t) := by
   intro v hv hok rest
